@@ -476,6 +476,7 @@ impl<'a, 'input: 'a> SvgNode<'a, 'input> {
             doc: self.document(),
             origin: self.id(),
             curr: self.id(),
+            visited: Vec::new(),
             is_first: true,
             is_finished: false,
         }
@@ -601,6 +602,7 @@ pub struct HrefIter<'a, 'input: 'a> {
     doc: &'a Document<'input>,
     origin: NodeId,
     curr: NodeId,
+    visited: Vec<NodeId>,
     is_first: bool,
     is_finished: bool,
 }
@@ -619,7 +621,12 @@ impl<'a, 'input: 'a> Iterator for HrefIter<'a, 'input> {
         }
 
         if let Some(link) = self.doc.get(self.curr).node_attribute(AId::Href) {
-            if link.id() == self.curr || link.id() == self.origin {
+            // A link to any element that was already visited is a cycle,
+            // not only a link to the current or to the first one.
+            if link.id() == self.curr
+                || link.id() == self.origin
+                || self.visited.contains(&link.id())
+            {
                 log::warn!(
                     "Element '#{}' cannot reference itself via 'xlink:href'.",
                     self.doc.get(self.origin).element_id()
@@ -628,6 +635,7 @@ impl<'a, 'input: 'a> Iterator for HrefIter<'a, 'input> {
                 return None;
             }
 
+            self.visited.push(self.curr);
             self.curr = link.id();
             Some(self.doc.get(self.curr))
         } else {
